@@ -427,8 +427,10 @@ def write_evidence(pid, mod, tier, seed, total, violations_new, known_hit, extra
         "wall_s": round(total["wall_s"], 2),
         "violations": violations_new,
     }
-    os.makedirs(os.path.join(ROOT, "evidence"), exist_ok=True)
-    path = os.path.join(ROOT, "evidence", f"{pid}.json")
+    # (the sensitivity self-test points this elsewhere so that runs against mutants never overwrite real evidence)
+    evdir = os.environ.get("VERIF_EVIDENCE_DIR") or os.path.join(ROOT, "evidence")
+    os.makedirs(evdir, exist_ok=True)
+    path = os.path.join(evdir, f"{pid}.json")
     tmp = path + ".tmp"
     with open(tmp, "w") as f:
         json.dump(ev, f, indent=1, sort_keys=True, default=_json_default)
